@@ -831,6 +831,112 @@ def rule_table_shape(eng, rep, rule="C18-4.diagnostic-table-shape"):
         rep.bad(rule, eng.where(tdf), "diagnostic_info|to_dataframe-skips|%s" % "+".join(sorted(skipped - {"xk", "rk"})), "to_dataframe can omit documented columns %s" % sorted(skipped - {"xk", "rk"}))
 
 
+def rule_npt_never_exceeds_its_maximum(eng, rep, rule="C18-10.number-of-points-never-grows-past-restarts.max_npt"):
+    """`restarts.max_npt` is the documented maximum of |Y_k| (the `npt` column of the table).  Two places grow the set:
+      (a) the hard-restart loop of `solve` increases the `npt` handed to the next run: every increase must be followed, on every path to the next solve_main call,
+          by a clamp `npt = min(npt, .. params("restarts.max_npt") ..)` (a guard `npt < max` before an increase of more than one is not enough -- seed C18-y);
+      (b) `soft_restart` appends points: every call of Model.add_new_point sits in a `for .. in range(N)` whose N is, on every reaching definition,
+          `min(.., params("restarts.max_npt") - <points held> ..)`."""
+    from .common import arg_of
+    KEY = "restarts.max_npt"
+    solve = eng.fn("solver.solve")
+    cfg = eng.cfg(solve)
+    sm = eng.fn("solver.solve_main")
+    sm_calls = [cfg.cfg_node(ci.node) for ci in eng.calls_in(solve) if any(t.fid == sm.fid for t in ci.targets)]
+    npt_name = None
+    for ci in eng.calls_in(solve):
+        if any(t.fid == sm.fid for t in ci.targets):
+            e = arg_of(eng, ci.node, sm, "npt")
+            if isinstance(e, ast.Name):
+                npt_name = e.id
+    if not sm_calls or npt_name is None:
+        rep.unknown(rule, eng.where(solve), "solve_main call sites / their npt argument not found")
+        return
+
+    def mentions_max(e):
+        return KEY in param_keys_in(eng, e)
+
+    def is_increase(st):
+        if isinstance(st, ast.AugAssign) and isinstance(st.op, (ast.Add, ast.Mult)) and isinstance(st.target, ast.Name) and st.target.id == npt_name:
+            return True
+        if isinstance(st, ast.Assign) and len(st.targets) == 1 and isinstance(st.targets[0], ast.Name) and st.targets[0].id == npt_name \
+                and isinstance(st.value, ast.BinOp) and isinstance(st.value.op, (ast.Add, ast.Mult)) and npt_name in mentions(st.value):
+            return True
+        return False
+
+    def is_clamp(st):
+        return isinstance(st, ast.Assign) and len(st.targets) == 1 and isinstance(st.targets[0], ast.Name) and st.targets[0].id == npt_name \
+            and isinstance(st.value, ast.Call) and isinstance(st.value.func, ast.Name) and st.value.func.id == "min" \
+            and any(mentions_max(a) for a in st.value.args) and (any(ekey(a) == npt_name for a in st.value.args) or any(is_incr_expr(a) for a in st.value.args))
+
+    def is_incr_expr(a):
+        return isinstance(a, ast.BinOp) and isinstance(a.op, ast.Add) and npt_name in mentions(a)
+
+    first_call = min(sm_calls)
+    incs = [n for n, d in cfg.g.nodes(data=True) if d["kind"] == "stmt" and is_increase(d["ast"]) and cfg.path_avoiding(first_call, n, []) is not None]
+    clamps = [n for n, d in cfg.g.nodes(data=True) if d["kind"] == "stmt" and is_clamp(d["ast"])]
+    n_inst = 0
+    for inc in incs:
+        n_inst += 1
+        site = eng.where(solve, cfg.ast_of(inc))
+        if inc in clamps:
+            rep.ok(rule, site, "the increase is itself clamped to %s" % KEY)
+            continue
+        bad = None
+        for c in sm_calls:
+            pth = cfg.path_avoiding(inc, c, clamps)
+            if pth is not None:
+                bad = pth
+                break
+        if bad is not None:
+            rep.bad(rule, site, "solver.solve|npt-increase-not-clamped-to-max_npt",
+                    "`%s` is increased for the next run and can reach solve_main without `%s = min(%s, params('%s'))`: the run holds more points than the documented maximum"
+                    % (npt_name, npt_name, npt_name, KEY), path=cfg.describe_path(bad)[-8:])
+        else:
+            rep.ok(rule, site, "every path from this increase of `%s` to the next solve_main call passes the clamp to params('%s')" % (npt_name, KEY))
+    # (b) appended points
+    anp = eng.fn("model.Model.add_new_point")
+    for ci in eng.calls_to(anp.fid):
+        fi = ci.caller
+        if fi.cls == "Model":
+            continue
+        n_inst += 1
+        fcfg = eng.cfg(fi)
+        site = eng.where(fi, ci.node)
+        loop = None
+        cur = eng.prog.parent.get(id(ci.node))
+        while cur is not None and not isinstance(cur, (ast.FunctionDef, ast.Lambda)):
+            if isinstance(cur, (ast.For, ast.While)):
+                loop = cur
+                break
+            cur = eng.prog.parent.get(id(cur))
+        if not (isinstance(loop, ast.For) and isinstance(loop.iter, ast.Call) and isinstance(loop.iter.func, ast.Name) and loop.iter.func.id == "range" and len(loop.iter.args) == 1):
+            rep.unknown(rule, site, "add_new_point is not called from a `for .. in range(N)` loop: the number of appended points is not decided")
+            continue
+        N = loop.iter.args[0]
+        exprs = []
+        if isinstance(N, ast.Name):
+            for dn in fcfg.defs_reaching(loop.iter, N.id):
+                ds = fcfg.ast_of(dn)
+                exprs.append(ds.value if isinstance(ds, ast.Assign) and len(ds.targets) == 1 and isinstance(ds.targets[0], ast.Name) else None)
+        else:
+            exprs.append(N)
+
+        def bounded(e):
+            if not (isinstance(e, ast.Call) and isinstance(e.func, ast.Name) and e.func.id == "min"):
+                return False
+            for a in e.args:
+                if isinstance(a, ast.BinOp) and isinstance(a.op, ast.Sub) and mentions_max(a.left) and ("npt" in ekey(a.right) or "num_pts" in ekey(a.right)):
+                    return True
+            return False
+        if exprs and all(e is not None and bounded(e) for e in exprs):
+            rep.ok(rule, site, "points are appended in a loop of min(.., params('%s') - points held) passes" % KEY)
+        else:
+            rep.bad(rule, site, "%s|appended-points-not-bounded-by-max_npt" % fi.fid,
+                    "the loop that appends points runs `%s` times, which is not bounded by params('%s') minus the points held: the set can grow past the documented maximum" % (short(N), KEY))
+    rep.require_count(rule, "places that grow the interpolation set", n_inst, 2)
+
+
 def run(eng, rep):
     rep.explain("C18 (structural clauses): forward data-flow of the fact delta >= rho through solve_main and the Controller methods that write delta/rho, with "
                 "inference rules for max/min, literal factors >= 1 and the false edge of `delta <= c*rho`, option implications taken from solve's validation "
@@ -850,6 +956,9 @@ def run(eng, rep):
     rep.guarded(rule_radii_not_reassigned_after_validation, eng, rep)
     rep.guarded(rule_recorded_best_is_the_selection, eng, rep)
     rep.guarded(rule_one_row_per_iteration, eng, rep)
+    rep.guarded(rule_npt_never_exceeds_its_maximum, eng, rep)
+    from .c04 import rule_furthest_point_loops_stop_before_the_incumbent
+    rep.guarded(rule_furthest_point_loops_stop_before_the_incumbent, eng, rep, rule="C18-11.recorded-best-value-cannot-rise-because-a-geometry-loop-reached-the-incumbent")
     from .mirrorrule import rule_mirror
     rep.guarded(rule_mirror, eng, rep, 'C18-6.bound-test-of-the-rho-reduction-criterion-is-symmetric', ['controller.Controller.done_with_current_rho'])
     from .c10 import rule_nruns
